@@ -280,6 +280,20 @@ def r6(ctx):
         if not legit:
             okall = False
             why.append('break at line %d under %s' % (fn.line_of(b), sorted(atoms)))
+    # the queue is searched on every pass through the loop that finds it non-empty: the search is not made dependent on
+    # anything remembered from an earlier pass (the size is no fingerprint of the content: one entry taken out by another
+    # waiter and another one pushed leave the same size)
+    for c in fn.calls('remove'):
+        v = fn.nodes[c]
+        if 'obj' not in v or not fn.key(v['obj']).endswith('m_queue'):
+            continue
+        atoms = set((a[0], a[1]) for a in fn.atoms(c))
+        import re as _re
+        strange = sorted(k for k, p_ in atoms if not _re.match(r'^\((\w+|this\.m_queue\.size\(\)) (==|<|<=) #0\)$', k) and
+                         not k.endswith('.empty()') and k != fn.P(1) and not k.startswith('#'))
+        if strange:
+            okall = False
+            why.append('the search for the item depends on %s' % strange)
     loops = fn.all('WhileStmt', 'ForStmt', 'DoStmt')
     cond_true = all(fn.val(fn.nodes[l].get('cond')) == 1 for l in loops if 'cond' in fn.nodes[l])
     ctx.ob('C04.R6', fn, fn.body, okall and cond_true and len(breaks) >= 3, 'exits of Queue::remove loop',
@@ -505,7 +519,66 @@ def r13(ctx):
     request_owns_data_rule(ctx, 'C04.R13')
 
 
+def r15(ctx):
+    ctx.rule('C04.R15', 'a SYN ends the exchange of the current request, whatever else is buffered: where handleReceive handles a '
+             'received SYN (outside the closing SYN of an own exchange) and enters ready/skip through setState, the result '
+             'handed over is negative - so that setState completes the current request - unless the choice of a non-negative '
+             'result is tied to m_currentRequest == nullptr. A SYN that arrives in one read chunk with the next telegram gives '
+             'RESULT_CONTINUE; passed on as it is, the request stays current in state ready, ebusd follows the foreign telegram '
+             'as if it were its own exchange (acknowledges the foreign response, reports its own request as sent)', minimum=1)
+    fb = ctx.fb
+    fn = fb.fn(A.HR)
+    ctx.touch(fn)
+    states, _ = A.bus_states(fb)
+    import rules.C03 as c03
+    c_, recvs, rsym = c03.autosyn_sites(fn)
+    n = 0
+    for c in fn.calls('setState'):
+        v = fn.nodes[c]
+        args = v.get('args', [])
+        if len(args) < 2 or states.get(fn.val(args[0])) not in ('bs_ready', 'bs_skip'):
+            continue
+        atoms = set((a[0], a[1]) for a in fn.atoms(c))
+        if ('(%s == #%d)' % (rsym, c03.SYN), True) not in atoms:
+            continue
+        if any(k.startswith('(result < #0)') and p_ for k, p_ in atoms):
+            continue
+        inv = {v_: k_ for k_, v_ in states.items()}
+        if fn.needs_one_of(c, [('(this.m_state == #%d)' % inv['bs_noSignal'], True), ('(this.m_state == #%d)' % inv['bs_skip'], True)]):
+            continue    # in noSignal / skip no request is current (entering them completed it)
+        n += 1
+        nocur_call = fn.needs_one_of(c, [('(this.m_currentRequest == #0)', True)])
+        bad = []
+
+        def leaves(x, conds):
+            x = fn.strip(x, casts=True)
+            nd = fn.nodes[x]
+            if nd['k'] == 'ConditionalOperator':
+                leaves(nd['then'], conds + [(nd['cond'], True)])
+                leaves(nd['else'], conds + [(nd['cond'], False)])
+                return
+            val = fn.val(x)
+            if val is not None and val < 0:
+                return
+            # non-negative or unknown: allowed only where no request is current
+            tied = nocur_call
+            for cnd, pol in conds:
+                for conj in facts.implied(fn, cnd, pol):
+                    pass
+                dnf = facts.implied(fn, cnd, pol)
+                if dnf and all(any(facts.atom_key(fn, a) == ('(this.m_currentRequest == #0)', True) for a in cj) for cj in dnf):
+                    tied = True
+            if not tied:
+                bad.append(fn.key(x))
+        leaves(args[1], [])
+        ctx.ob('C04.R15', fn, c, not bad, 'setState(%s, ...) on a received SYN' % states.get(fn.val(args[0])),
+               'a result that is not negative is chosen only without a current request: %s%s' % (not bad, '' if not bad else ' (may pass %s while a request is current)' % ', '.join(bad)))
+    if n < 1:
+        raise AnalysisBroken('C04.R15: the handling of a received SYN was not found in handleReceive')
+
+
 def run(ctx):
+    r15(ctx)
     import rules.common as _cmn
     ctx.rule('C04.R14', 'an argument is still the argument where it is read: a for loop that takes a by-value parameter over as its counter destroys the argument, so no read of that parameter is reachable behind such a loop - BusHandler::prepareScan decides who frees a scan request (deleteOnFinish) by slave == SYN; behind for (slave = 1; slave != 0; slave++) that test is always false and every asynchronous scan request stays in the finished queue for ever (checked against a positive example on every run)', minimum=3)
     _cmn.loop_counter_param_rule(ctx, 'C04.R14', lambda f: f.relfile.startswith(('src/lib/ebus/', 'src/ebusd/')), 3)
